@@ -24,7 +24,7 @@ SUITE_MODULES = {
     "typestate": "StreamTSC", "request": "SessionC",
     "session": "E2C", "control": "E2C", "control_cut": "E2C", "streams": "E2C", "foreign": "E2C",
     "unknown_uni": "E2C", "stall": "E2C", "pace": "E2C", "emit": "E2C", "signals": "E2C", "wdgram": "E2C", "client": "E2C", "pair": "E2C", "requests": "E2C", "credit": "E2C",
-    "trace": "E3C", "cell": "E3C",
+    "trace": "E3C", "cell": "E3C", "backlog": "E3C",
     "pin": "E4C", "digest": "E4C", "pem": "E4C", "identity": "E4C", "bind": "E4C", "idle": "E4C", "alpn": "E4C", "reload": "E4C",
     "wire": "WireC", "settings": "WireC", "dgram": "WireC", "capsule": "WireC", "ids": "WireC", "status": "WireC",
 }
@@ -141,8 +141,8 @@ PROPS["C03"] = {
 
 PROPS["C04"] = {
     "title": "Session termination is reported with the peer's exact code and reason",
-    "corr_modules": ["WireC", "StreamTSC", "E2C"],
-    "suites": [("e1", "capsule", ["debug"]), ("e1", "typestate", ["debug"]), ("e2", "session", ["debug"]), ("e2", "client", ["debug"]), ("e2", "pair", ["debug"])],
+    "corr_modules": ["WireC", "StreamTSC", "E2C", "E3C"],
+    "suites": [("e1", "capsule", ["debug"]), ("e1", "typestate", ["debug"]), ("e2", "session", ["debug"]), ("e2", "client", ["debug"]), ("e2", "pair", ["debug"]), ("e2", "backlog", ["debug"])],
     "technique": PROOF_TECH,
     "level_text": "theorems about the session-stream runner for every history of skippable elements followed by a close capsule / clean FIN / reset / FIN inside a frame / malformed capsule: exact code and reason, (0,\"\") for a clean finish, protocol failure otherwise; the wire code answered; tie: differential runs of the capsule decoders and the session typestate",
     "level_note": CODEC_NOTE + "; quinn's transport of CONNECTION_CLOSE is an oracle",
@@ -243,7 +243,7 @@ PROPS["C08"] = {
 PROPS["C09"] = {
     "title": "Termination is prompt, total and never misattributed",
     "corr_modules": ["E2C", "E3C"],
-    "suites": [("e2", "session", ["debug"]), ("e2", "pair", ["debug"]), ("e2", "requests", ["debug"]), ("e2", "cell", ["debug"])],
+    "suites": [("e2", "session", ["debug"]), ("e2", "pair", ["debug"]), ("e2", "requests", ["debug"]), ("e2", "cell", ["debug"]), ("e2", "backlog", ["debug"])],
     "technique": PROOF_TECH,
     "level_text": "theorems: the result cell is set at most once and every later get returns that value; each reported error names the actual cause (peer code+reason, local H3 error, transport cause, or local close); the worker closes with the code of the cause; tie: every way the session stream / connection ends x pending and subsequent calls against the running driver (none hangs, none succeeds, none panics)",
     "level_note": CODEC_NOTE + WIRE_NOTE + "; 'bounded time' is bounded model steps; a runtime shut down under the worker is outside the model",
